@@ -1,13 +1,20 @@
----------------------------- MODULE C10_SimJudge ----------------------------
-(* Judge for the simulated programs: observation [id, ast, src, out].  Source text and tree are tied by re-rendering. *)
-EXTENDS C10_Prog
+--------------------------- MODULE FPMachine_Judge ---------------------------
+(* Judge for the programs of FPMachine_Sim: observation [id, ast, src, out, parent, prop].  Source text and tree are tied by re-rendering. *)
+EXTENDS FPMachine
 
 Obs == ndJsonDeserialize(ObsFile)
+
+(* both sides hold the same environment collections: the harness evaluated %name for every name and recorded the outcome *)
+VarsObs == ndJsonDeserialize(VarsObsFile)[1].vars
+VarsTie == \A n \in DOMAIN Vars : VarsObs[n].k = "ok" /\ SeqSame(VarsObs[n].items, Vars[n])
+ASSUME VarsTie
 NObs == Len(Obs)
 W == 16
 
+Outer(e) == IF e.k = "call" THEN e.f ELSE IF e.k = "bin" THEN e.op ELSE IF e.k = "typeop" THEN e.op ELSE e.k
+
 Verdict(o) ==
-  LET r == Eval(o.ast, Env(BaseVars), Input)
+  LET r == Eval(o.ast, Env, Input)
       textOk == Render(o.ast) = o.src
       good == /\ ~IsFailure(o.out)
               /\ CASE r.k = "any" -> TRUE
@@ -16,7 +23,7 @@ Verdict(o) ==
                    [] r.k = "ok"  -> o.out.k = "ok" /\ SeqSame(o.out.items, r.items)
   IN [id |-> o.id, ok |-> good /\ textOk, open |-> r.k = "any",
       sig |-> IF good /\ textOk THEN "" ELSE IF ~textOk THEN "malformed|rendering-differs"
-              ELSE "machine|" \o (IF o.ast.k = "call" THEN o.ast.f ELSE o.ast.k) \o "|got-" \o KindOf(o.out) \o "|want-" \o (IF r.k = "ok" THEN "ok" \o ToString(Len(r.items)) ELSE r.k),
+              ELSE "machine|" \o o.prop \o "|" \o Outer(o.ast) \o "|got-" \o KindOf(o.out) \o "|want-" \o (IF r.k = "ok" THEN "ok" \o ToString(Len(r.items)) ELSE r.k),
       want |-> IF r.k = "ok" THEN r.items ELSE <<>>]
 
 VARIABLE i
